@@ -64,6 +64,9 @@ def _pool(T):
     opsd["bd"] = ops.BlockDiag(opsd["dense"], opsd["diag"], multiplicities=[1, 1])
     opsd["sliced"] = opsd["dense"][np.array([1, 0]), :]
     opsd["transpose"] = ops.Transpose(opsd["tridiag"])
+    # lazily composed operators carrying declared annotations (true declarations: products of permutations)
+    opsd["stf"] = cola.Stiefel(ops.Product(opsd["perm"], opsd["perm"]))
+    opsd["uni"] = cola.Unitary(ops.Sum(opsd["perm"], ops.ScalarMul(0., (2, 2), dtype=np.dtype(dt))))
     return arrs, opsd
 
 
@@ -79,7 +82,8 @@ def _snapshot(T, arrs, opsd):
 ALPHABET = ["sum_id_first@x", "sum_id_first@X", "sum@x", "x@sum", "dense@x", "x@dense", "diag@X", "kron@x4", "bd@x4", "sliced@x", "prod@x", "tridiag@X", "house@X",
             "perm@X", "dense.T@x", "dense.H@x", "sum.T@x", "to_dense:kron", "to_dense:sliced", "psd+dense", "2*dense", "dense/2", "-sum", "dense@dense2", "PSD(dense)",
             "dense[0]", "dense[idx,:]", "dense[:,1]", "inv(dense)@x", "inv(psd)@x", "inv(tri)@x", "solve(diag,x)", "x@inv(dense)", "diag(sum)", "trace(kron)",
-            "cg(psd,x,x0)", "cg(psd,X)", "inv(psd,CG(x0))@X", "lanczos(psd,v)", "arnoldi(dense,v)", "exp(diag)@x", "sqrt(psd)@x", "cholesky(psd)", "plu(dense)"]
+            "cg(psd,x,x0)", "cg(psd,X)", "inv(psd,CG(x0))@X", "lanczos(psd,v)", "arnoldi(dense,v)", "exp(diag)@x", "sqrt(psd)@x", "cholesky(psd)", "plu(dense)",
+            "stf.T@x", "stf.H@x", "x@stf", "uni.H@x", "inv(uni)@x", "T(kron(stf,psd))"]
 
 
 def _apply(T, name, arrs, O):
@@ -104,6 +108,8 @@ def _apply(T, name, arrs, O):
         "lanczos(psd,v)": lambda: _lan(O["psdc"], arrs["vc"]), "arnoldi(dense,v)": lambda: _arn(O["dense"], arrs["vc"]),
         "exp(diag)@x": lambda: _un().exp(O["diag"]) @ x, "sqrt(psd)@x": lambda: _un().sqrt(O["diag"]) @ x, "cholesky(psd)": lambda: _dec().cholesky(O["diag"]).to_dense(),
         "plu(dense)": lambda: _dec().plu(O["diag"])[2].to_dense(),
+        "stf.T@x": lambda: O["stf"].T @ x, "stf.H@x": lambda: O["stf"].H @ x, "x@stf": lambda: x @ O["stf"], "uni.H@x": lambda: O["uni"].H @ x,
+        "inv(uni)@x": lambda: cola.linalg.inv(O["uni"]) @ x, "T(kron(stf,psd))": lambda: ops.Kronecker(O["stf"], O["psd"]).T @ x4,
     }
     return tbl[name]()
 
@@ -302,6 +308,6 @@ def cases(tier, seed):
     return out
 
 
-BOUNDS = dict(mutation="44-operation alphabet on a pool of 17 operators and 13 caller-owned arrays; all single operations; every 9th ordered pair (rotated by "
+BOUNDS = dict(mutation="50-operation alphabet on a pool of 19 operators and 13 caller-owned arrays; all single operations; every 9th ordered pair (rotated by "
               "VERIF_SEED; every 2nd in thorough) and a sample of triples in thorough", flatten="26 operator trees (every kind); leaf substitution for every float "
               "leaf", registry="6 instantiation histories x 9 operators in a registry reset to the fresh-interpreter state", values="all payloads symbolic")
